@@ -101,10 +101,20 @@ fn natural_panic(r: &mut Rng) -> Value {
 }
 
 fn burst(r: &mut Rng, pool: &[&'static str], m: usize) -> Value {
-    Value::Array((0..m).map(|_| {
+    let mut v: Vec<Value> = Vec::new();
+    while v.len() < m {
         let fault = match r.range(0, 11) { 0 => "unknown", 1 => "range", _ => "" };
-        call(r, pool, fault)
-    }).collect())
+        // "X, failing call, X again": a failed call between two identical successful ones must not change the second answer
+        // (with one thread the three calls are consecutive for the provider; with more threads they usually are not)
+        if fault != "" && r.chance(1, 2) {
+            let x = json!({"op": "CPDT.toZoned", "args": {"dt": {"y": 2001, "m": 9, "d": 9, "h": r.range(0, 23), "mi": r.range(0, 59), "s": 0, "ms": 0, "us": 0, "ns": 0}, "tz": zone(r, pool, "")}});
+            let bad = json!({"op": "CPDT.toZoned", "args": {"dt": {"y": 275760, "m": 9, "d": 13, "h": 23, "mi": 59, "s": 0, "ms": 0, "us": 0, "ns": 0}, "tz": *r.pick(&["America/New_York", "America/Los_Angeles", "America/Sao_Paulo"][..])}});
+            v.push(x.clone()); v.push(if fault == "range" { bad } else { call(r, pool, fault) }); v.push(x);
+            continue;
+        }
+        v.push(call(r, pool, fault));
+    }
+    Value::Array(v)
 }
 
 /// session plan: {"n": N, "kind", "phases": [[[call..] per thread] per phase]}
